@@ -62,6 +62,11 @@ def facesAppend (s : Raw) (f : List Nat) : Raw := { s with faces := s.faces ++ [
 def edgesAppend (s : Raw) (e : Int × Int) : Raw :=
   { s with edges := s.edges ++ [e], eattrs := s.eattrs.map (expandAttr 1) }
 
+/-- `self._attr[name] = a` on the insertion-ordered dict of attributes: an existing binding is replaced in place, a new one
+comes last -/
+def attrDictSet (as : List Attr) (n : String) (a : Attr) : List Attr :=
+  if hasAttr as n then as.map (fun b => if b.name == n then a else b) else as ++ [a]
+
 /-- `create_attribute(name, bool)` on the edge container: a sparse attribute without any key, default `False` -/
 def createFlagAttr (s : Raw) (name : String) : Raw :=
   { s with eattrs := s.eattrs ++ [{ name := name, dflt := 0, st := .sparse [] }] }
